@@ -725,3 +725,99 @@ def rule_zs1(ctx):
     else:
         r.ok("ZS1", "zmod_sum", loc(f, f.node), "",
              "no overwriting merge of coefficient maps")
+
+
+# ---------------------------------------------------------------------------
+def _symmetric_in_first_two(fnode):
+    """True when the function orders its first two parameters before use:
+    `if i > j: i, j = j, i` (any comparison direction) or min/max/sorted."""
+    a = [x.arg for x in fnode.args.args[:2]]
+    if len(a) < 2:
+        return False
+    for n in ast.walk(fnode):
+        if isinstance(n, ast.If) and isinstance(n.test, ast.Compare) \
+                and len(n.test.ops) == 1 \
+                and isinstance(n.test.ops[0], (ast.Gt, ast.Lt, ast.GtE,
+                                               ast.LtE)):
+            names = {dotted(n.test.left), dotted(n.test.comparators[0])}
+            if names != set(a):
+                continue
+            for st in n.body + n.orelse:
+                if isinstance(st, ast.Assign) \
+                        and isinstance(st.targets[0], ast.Tuple) \
+                        and isinstance(st.value, ast.Tuple) \
+                        and [dotted(x) for x in st.targets[0].elts] == \
+                        [dotted(x) for x in reversed(st.value.elts)] \
+                        and {dotted(x) for x in st.value.elts} == set(a):
+                    return True
+    lo = hi = False
+    for n in ast.walk(fnode):
+        if isinstance(n, ast.Call) and dotted(n.func) in (
+                "min", "max", "sorted", "np.minimum", "np.maximum") \
+                and {dotted(x) for x in (n.args[0].elts
+                                         if len(n.args) == 1 and isinstance(
+                                             n.args[0], (ast.Tuple, ast.List))
+                                         else n.args)} == set(a):
+            if dotted(n.func) == "sorted":
+                return True
+            lo |= dotted(n.func) in ("min", "np.minimum")
+            hi |= dotted(n.func) in ("max", "np.maximum")
+    return lo and hi
+
+
+def rule_sym1(ctx):
+    r = ctx.r
+    r.rule("SYM1", "sym_index(i, j, n) names the monomial e_i e_j = e_j e_i: "
+                   "either it orders its first two arguments itself, or "
+                   "every call site passes them ordered (second index "
+                   "ranging from the first upward)")
+    callee = ctx.p.get_function(REP, "sym_index")
+    r.analysed(callee)
+    sym = _symmetric_in_first_two(callee.node)
+    if sym:
+        r.ok("SYM1", "sym_index", loc(callee, callee.node), "",
+             "orders (i, j) before computing the index")
+    sites = 0
+    for f in ctx.p.all_functions:
+        if f.module.rel != REP:
+            continue
+        for c in ast.walk(f.node):
+            if not (isinstance(c, ast.Call)
+                    and dotted(c.func) == "sym_index" and len(c.args) >= 2):
+                continue
+            sites += 1
+            r.analysed(f)
+            if sym:
+                continue
+            a, b = c.args[0], c.args[1]
+            ordered = ast.dump(a) == ast.dump(b)
+            if not ordered and isinstance(b, ast.Name):
+                for lp in ast.walk(f.node):
+                    if isinstance(lp, ast.For) \
+                            and isinstance(lp.target, ast.Name) \
+                            and lp.target.id == b.id \
+                            and isinstance(lp.iter, ast.Call) \
+                            and dotted(lp.iter.func) == "range" \
+                            and len(lp.iter.args) >= 2:
+                        st = lp.iter.args[0]
+                        base = st.left if (isinstance(st, ast.BinOp)
+                                           and isinstance(st.op, ast.Add)) \
+                            else st
+                        if ast.dump(base) == ast.dump(a):
+                            ordered = True
+            if ordered:
+                r.ok("SYM1", f"{f.qualname}:call", loc(f, c),
+                     dotted(c)[:80], "arguments ordered at the call site")
+            else:
+                r.violation(
+                    "SYM1", f"{f.fq}|unordered-call", loc(f, c),
+                    dotted(c)[:100],
+                    "sym_index no longer orders (i, j) and this call "
+                    f"passes `{dotted(a)}`, `{dotted(b)}` in arbitrary "
+                    "order: for i > j the row index is wrong (negative or "
+                    "colliding), so symmetric_projection is not a left "
+                    "inverse of symmetric_inclusion and symmetric_square() "
+                    "is not Sym^2 of the representation for n >= 3",
+                    instance=f"{f.qualname}:call")
+    if sites < 2:
+        raise AnalysisError("SYM1: fewer than 2 sym_index call sites")
